@@ -22,3 +22,14 @@ Print Assumptions C09_original_container_immaterial.
 Theorem C09_copy_mode_sees_original_mutation :
   snd (irun nat (iinit nat Copy [10; 20]) [IMutateOriginal nat 0 99; IRead nat 0]) = [INone nat; IVal nat 2 99].
 Proof. exact copy_mode_sees_original_mutation. Qed.
+
+(* memory / disk cache over an upstream that hands out shared objects: the first access freezes the example; from
+   then on it is served unchanged after any history of reads and mutations of any object, the upstream's included *)
+Theorem C09_cache_first_access_freezes : forall (V : Type) s i h v,
+  lstep V s (LRead V i) = (fst (lstep V s (LRead V i)), LVal V h v) -> frozen V (fst (lstep V s (LRead V i))) i v.
+Proof. exact first_access_freezes. Qed.
+Theorem C09_cache_frozen_reads : forall (V : Type) s ops i v,
+  frozen V s i v -> exists h, snd (lstep V (fst (lrun V s ops)) (LRead V i)) = LVal V h v.
+Proof. exact frozen_reads. Qed.
+Print Assumptions C09_cache_first_access_freezes.
+Print Assumptions C09_cache_frozen_reads.
